@@ -49,9 +49,19 @@ pub struct Router {
     pub plain: bool,
     /// Mode::Normal on a tun device (= router) instead of Mode::Router
     pub normal_mode: bool,
+    /// node 0 is the gateway: it additionally claims 0.0.0.0/0 (every destination then has a receiver, seen from nodes 1 and 2)
+    pub default_route: bool,
 }
 
 /// claims of node i (nested across nodes): node 0 /8, node 1 /16 inside it, node 2 /24 inside that, node 3 a disjoint /16
+fn claims_of(i: usize, default_route: bool) -> Vec<([u8; 4], u8)> {
+    let mut v = claims(i);
+    if default_route && i == 0 {
+        v.push(([0, 0, 0, 0], 0));
+    }
+    v
+}
+
 fn claims(i: usize) -> Vec<([u8; 4], u8)> {
     match i {
         0 => vec![([10, 0, 0, 0], 8)],
@@ -72,7 +82,7 @@ impl Router {
             if j == from {
                 continue;
             }
-            for (base, p) in claims(j) {
+            for (base, p) in claims_of(j, self.default_route) {
                 if ref_matches(&base, p, &dst) {
                     if best.map(|b| p > b.0).unwrap_or(true) {
                         best = Some((p, j));
@@ -95,7 +105,7 @@ impl Model for Router {
                 if self.plain {
                     c.crypto.algorithms = vec!["plain".to_string()];
                 }
-                c.claims = claims(i).iter().map(|(b, p)| format!("{}.{}.{}.{}/{}", b[0], b[1], b[2], b[3], p)).collect();
+                c.claims = claims_of(i, self.default_route).iter().map(|(b, p)| format!("{}.{}.{}.{}/{}", b[0], b[1], b[2], b[3], p)).collect();
                 c
             })
             .collect();
@@ -209,7 +219,7 @@ pub fn run_outsider(c: &OutsiderCase) -> CaseResult {
         Ok(1)
     };
     if c.mode == "router" {
-        let m = Router { n: 3, plain: false, normal_mode: false };
+        let m = Router { n: 3, plain: false, normal_mode: false, default_route: false };
         let mut s = m.init();
         s.net.queue.clear();
         let mut d = vec![c.msg_type];
@@ -348,7 +358,7 @@ pub fn run(ctx: &Ctx) {
     }
     super::modes::run(ctx);
     sweep_list(ctx, "multi_address_mesh", &multi, SweepOpts { chunk: 1, ..Default::default() }, run_multi_addr);
-    let m = Router { n: 3, plain: false, normal_mode: false };
+    let m = Router { n: 3, plain: false, normal_mode: false, default_route: false };
     let res = explore::explore(
         ctx,
         "isolation_router",
@@ -360,12 +370,18 @@ pub fn run(ctx: &Ctx) {
         explore::explore(
             ctx,
             name,
-            &Router { n: 3, plain, normal_mode },
+            &Router { n: 3, plain, normal_mode, default_route: false },
             ExploreOpts { max_depth: ctx.tier.pick(2, 3), wall_cap: Duration::from_secs(ctx.tier.pick(400, 600)), state_cap: 2_000_000, dedup: true },
         );
     }
+    explore::explore(
+        ctx,
+        "isolation_router_default_route",
+        &Router { n: 3, plain: false, normal_mode: false, default_route: true },
+        ExploreOpts { max_depth: ctx.tier.pick(2, 3), wall_cap: Duration::from_secs(ctx.tier.pick(400, 600)), state_cap: 2_000_000, dedup: true },
+    );
     if ctx.tier == Tier::Thorough {
-        explore::explore(ctx, "isolation_router4", &Router { n: 4, plain: false, normal_mode: false }, ExploreOpts { max_depth: 3, wall_cap: Duration::from_secs(1200), state_cap: 2_000_000, dedup: true });
+        explore::explore(ctx, "isolation_router4", &Router { n: 4, plain: false, normal_mode: false, default_route: false }, ExploreOpts { max_depth: 3, wall_cap: Duration::from_secs(1200), state_cap: 2_000_000, dedup: true });
     }
     // switch and hub: the learning model of C13 carries the same conservation oracle (receivers, wire, byte identity, once,
     // no relaying); it is explored here under C10's name
@@ -398,7 +414,7 @@ pub fn replay(family: &str, case: &Value) -> Option<CaseResult> {
         f if f.starts_with("isolation_router") => {
             let hist: Vec<Ev> = serde_json::from_value(case["history"].clone()).ok()?;
             let n = if f.contains('4') { 4 } else { 3 };
-            Some(explore::replay_history(&Router { n, plain: f.contains("plain"), normal_mode: f.contains("normal") }, &hist))
+            Some(explore::replay_history(&Router { n, plain: f.contains("plain"), normal_mode: f.contains("normal"), default_route: f.contains("default_route") }, &hist))
         }
         f => {
             let want = f.trim_end_matches("-audit").replace("isolation_", "learning_");
